@@ -10,6 +10,7 @@ mod s_bytes;
 mod s_delivery;
 mod s_events;
 mod s_match;
+mod s_qos;
 mod s_timing;
 
 use vutil::{Args, Report};
@@ -20,6 +21,7 @@ fn scenarios(id: &str, args: &Args) -> Option<Vec<explore::Scenario>> {
         "C02" => s_delivery::c02(args),
         "C03" => s_acks::c03(args),
         "C04" => s_acks::c04(args),
+        "C15" => s_qos::c15(args),
         "C16" => s_match::c16(args),
         "C17" => s_match::c17(args),
         "C26" => s_events::c26(args),
@@ -67,6 +69,9 @@ fn main() {
         std::process::exit(if ok { 0 } else { 1 });
     }
     let t0 = std::time::Instant::now();
+    if args.id == "C15" {
+        s_qos::function_level(&args, &mut rep);
+    }
     explore::explore(&args, &mut rep, scen);
     rep.set("max_shard_wall_ms", vutil::serde_json::json!(t0.elapsed().as_millis() as u64));
     rep.write(&args);
